@@ -28,6 +28,10 @@ Bases == [
   s4 |-> <<[k |-> "media", queries |-> <<"print">>, rules |-> <<Style(<<"a">>, B1), Style(<<"b">>, B2)>>], Style(<<"i">>, B2)>>,
   s5 |-> <<[k |-> "page", sel |-> ":first", body |-> B2, margins |-> <<[name |-> "@top-left", body |-> B2]>>], Style(<<"a">>, B1)>>,
   s6 |-> <<[k |-> "fontface", body |-> <<D("font-family", <<C("IDENT", "x")>>, "")>>], Style(<<"a">>, B2)>>,
+  s8 |-> <<[k |-> "media", queries |-> <<"print">>, rules |-> <<Style(<<"a">>, B2),
+              [k |-> "media", queries |-> <<"screen">>, rules |-> <<Style(<<"b">>, B2), Style(<<"i">>, B1)>>]>>]>>,
+  s9 |-> <<[k |-> "media", queries |-> <<"print">>, rules |-> <<Style(<<"a">>, B2),
+              [k |-> "page", sel |-> ":first", body |-> B2, margins |-> <<[name |-> "@top-left", body |-> B2]>>]>>]>>,
   s7 |-> <<[k |-> "namespace", prefix |-> "p", uri |-> "u"], Style(<<"a">>, B2), Style(<<"p|a">>, B1),
            [k |-> "media", queries |-> <<"print">>, rules |-> <<Style(<<"p|b", "b">>, B2)>>]>>]
 BaseIds == DOMAIN Bases
